@@ -11,6 +11,8 @@
   The security implementation is modelled WITH the fixes `fixes/llctrl-01-…` and
   `fixes/llctrl-02-…` (member `start_encryption_requested_`, reset in `reset_encryption`).
 
+  The instant checks are those of fix d12fb4f (`instant_passed`, 16-bit event counter).
+
   Restrictions (stated, not hidden): peripheral latency is 0 (the event counter advances by one
   per connection event), transmit / receive buffers never run full (the harness uses 2000 byte
   buffers), L2CAP traffic is the single ATT Read Request for the encryption-protected
@@ -89,7 +91,7 @@ structure State where
   interval          : Nat                  -- connection_interval_ in µs
   connTimeout       : Nat                  -- connection_timeout_ in µs
   timeSince         : Nat                  -- time_since_last_event() in µs
-  evCounter         : Nat                  -- connection_event_counter()
+  evCounter         : Nat                  -- connection_event_counter() (std::uint16_t: kept < 65536)
   deferred          : Option Pdu           -- defered_ll_control_pdu_
   deferredInstant   : Nat                  -- defered_conn_event_counter_
   terminationSent   : Bool                 -- termination_send_
@@ -249,16 +251,20 @@ def handleRejects (s : State) (opcode : UInt8) (body : Bytes) : State :=
 
 def opcodeOf (body : Bytes) : UInt8 := if body.length > 0 then rd8 body 0 else 0xff
 
+-- src: link_layer::instant_passed (fix d12fb4f): `distance = uint16( instant - connEventCount )`,
+--      passed (or not reachable: the PDU is handled after its event) iff 0 or >= 32767
+def instantPassed (s : State) (inst : Nat) : Bool :=
+  decide ((inst + 65536 - s.evCounter) % 65536 = 0 ∨ (inst + 65536 - s.evCounter) % 65536 ≥ 32767)
+
 /-- LL_CONNECTION_UPDATE_IND branch -/
 def ctlConnectionUpdate (s : State) (p : Pdu) : State × Bool :=
-  if ((rd16 p.body 10 + 65536 - s.evCounter % 65536 + 1) % 65536) &&& 0x8000 ≠ 0
-      ∨ rd16 p.body 10 = s.evCounter + 1 then
+  if instantPassed s (rd16 p.body 10) = true ∨ rd16 p.body 10 = s.evCounter + 1 then
     ({ s with deferredInstant := rd16 p.body 10, reason := 0x28 }, true)
   else ({ s with deferredInstant := rd16 p.body 10, deferred := some p }, false)
 
 /-- LL_CHANNEL_MAP_REQ branch -/
 def ctlChannelMap (s : State) (p : Pdu) : State × Bool :=
-  if ((rd16 p.body 6 + 65536 - s.evCounter % 65536) % 65536) &&& 0x8000 ≠ 0 then
+  if instantPassed s (rd16 p.body 6) = true then
     ({ s with deferredInstant := rd16 p.body 6, reason := 0x28 }, true)
   else ({ s with deferredInstant := rd16 p.body 6, deferred := some p }, false)
 
@@ -273,6 +279,13 @@ def ctlFeature (s : State) (body : Bytes) : State :=
   commit (push { s with usedFeatures := s.usedFeatures &&& rd16 body 1 } (.features ((body.drop 1).take 8)))
     (ctrl [LL_FEATURE_RSP, lo8 (s.usedFeatures &&& rd16 body 1), hi8 (supportedFeatures s.cfg), 0, 0, 0, 0, 0, 0])
 
+/-- after handle_phy_request (fix d12fb4f): a just deferred LL_PHY_UPDATE_IND is subject to the
+    same instant rule; an unreachable instant ends the connection with reason 0x28 -/
+def phyInstantCheck (s : State) : State × Bool :=
+  if s.deferred.isSome = true ∧ instantPassed s s.deferredInstant = true then
+    ({ s with deferred := none, reason := 0x28 }, true)
+  else (s, false)
+
 /-- the tail of handle_ll_control_data: encryption PDUs, PHY PDUs, LL_UNKNOWN_RSP -/
 def ctlOther (s : State) (p : Pdu) (opcode : UInt8) (size : Nat) : State × Bool :=
   match handleEncryptionPdus s opcode size p.body with
@@ -280,8 +293,8 @@ def ctlOther (s : State) (p : Pdu) (opcode : UInt8) (size : Nat) : State × Bool
   | some (s', none) => (s', false)
   | none =>
     match handlePhyRequest s p opcode size with
-    | some (s', some rsp) => (commit s' rsp, false)
-    | some (s', none) => (s', false)
+    | some (s', some rsp) => (commit (phyInstantCheck s').1 rsp, (phyInstantCheck s').2)
+    | some (s', none) => phyInstantCheck s'
     | none =>
       if opcode ≠ LL_UNKNOWN_RSP then (commit s (ctrl [LL_UNKNOWN_RSP, opcode]), false)
       else (s, false)
@@ -376,7 +389,7 @@ def applyDeferred (s : State) (p : Pdu) : State × Bool :=
 def handlePending (s : State) : State × Bool :=
   match s.deferred with
   | none => (s, false)
-  | some p => if s.deferredInstant ≠ s.evCounter % 65536 then (s, false) else applyDeferred s p
+  | some p => if s.deferredInstant ≠ s.evCounter then (s, false) else applyDeferred s p
 
 def paramReqPdu (s : State) : Pdu :=
   let v := fun i => s.proposed.getD i 0
@@ -416,7 +429,7 @@ def connect (s : State) (interval timeout : Nat) : State :=
   push s .requested
 
 def timeoutPlan (s : State) : State :=
-  match handlePending { s with evCounter := s.evCounter + 1, timeSince := s.timeSince + s.interval } with
+  match handlePending { s with evCounter := (s.evCounter + 1) % 65536, timeSince := s.timeSince + s.interval } with
   | (s', true) => forceDisconnect s'
   | (s', false) => s'
 
@@ -449,7 +462,7 @@ def decTimeout (s : State) : State :=
 
 /-- plan_next_connection_event, handle_pending_ll_control, transmit_pending_control_pdus -/
 def endEventPlan (s : State) : State :=
-  match handlePending { s with evCounter := s.evCounter + 1, timeSince := s.interval } with
+  match handlePending { s with evCounter := (s.evCounter + 1) % 65536, timeSince := s.interval } with
   | (s', true) => forceDisconnect s'
   | (s', false) =>
     if s'.phase = .connected ∨ s'.phase = .connecting then transmitPendingControl s' else s'
